@@ -32,6 +32,8 @@ pub struct Authorizer {
     pub(crate) public_key_to_block_id: HashMap<usize, Vec<usize>>,
     pub(crate) limits: AuthorizerLimits,
     pub(crate) execution_time: Option<Duration>,
+    /// set once the Datalog evaluation has exhausted one of its budgets
+    pub(crate) exhausted: Option<error::RunLimit>,
 }
 
 impl Authorizer {
@@ -39,9 +41,26 @@ impl Authorizer {
         match self.execution_time {
             Some(execution_time) => Ok(execution_time),
             None => {
+                // budgets are cumulative: once one of them is used up, calling again does not
+                // start over with a fresh one
+                if let Some(limit) = self.exhausted.clone() {
+                    return Err(error::Token::RunLimit(limit));
+                }
+                // same for an authorizer restored from a snapshot taken after that point
+                if self.world.iterations > 0 && self.world.iterations >= self.limits.max_iterations
+                {
+                    self.exhausted = Some(error::RunLimit::TooManyIterations);
+                    return Err(error::Token::RunLimit(error::RunLimit::TooManyIterations));
+                }
                 let start = Instant::now();
-                self.world
-                    .run_with_limits(&self.symbols, self.limits.clone())?;
+                let mut limits = self.limits.clone();
+                limits.max_iterations = limits.max_iterations.saturating_sub(self.world.iterations);
+                if let Err(e) = self.world.run_with_limits(&self.symbols, limits) {
+                    if let error::Execution::RunLimit(limit) = &e {
+                        self.exhausted = Some(limit.clone());
+                    }
+                    return Err(e.into());
+                }
                 let execution_time = start.elapsed();
                 self.execution_time = Some(execution_time);
                 Ok(execution_time)
@@ -77,6 +96,7 @@ impl Authorizer {
             public_key_to_block_id: HashMap::new(),
             limits: AuthorizerLimits::default(),
             execution_time: None,
+            exhausted: None,
         }
     }
 
